@@ -45,6 +45,8 @@ CORPUS = [
     ["rt 0 O1 %s i32:1" % T('a"b'), "rt 2 O2 %s T %s Z" % (T("a\\"), T("\n\t\"\\/")), "rt 0 O1 %s O1 %s S:%s" % (T('"'), T("\\\""), T('"'))],
     # FJ5 (fixed): unclosed objects, nested (heap-buffer-overflow before the fix) and at top level
     ["parse " + T("[" + " " * 40 + "{"), "parse " + T('{"' + "a" * 40 + '": {"b":1,'), "parse " + T("{"), "parse " + T('{"a":1,')],
+    # FJ7 (fixed): sign, blanks, then a decimal: the whole text went to sscanf, which fails and left the value uninitialised
+    ["parse " + T("[- 5.0]"), "parse " + T("-  2.5e3"), "parse " + T("{a: - 1.5f, b: -\t0.25}"), "rt 0 A2 P:%s P:%s" % (T("- 5.0"), T("-  7.5f"))],
     # F29a NUL byte in a string / key (known finding)
     ["rt 0 S:610062"],
     ["rt 2 O1 6b0078 i32:1"],
